@@ -28,6 +28,29 @@ impl StreamBox {
     #[verifier::external_body]
     pub fn pythonic_index_isize(&self, i: isize) -> (r: NRes<Obj>) { unimplemented!() }
 }
+impl StreamBox {
+    // dyn Stream::pythonic_slice (iteration / forcing); not verified here
+    #[verifier::external_body]
+    pub fn pythonic_slice(&self, lo: Option<isize>, hi: Option<isize>) -> (r: NRes<Seq>) { unimplemented!() }
+}
+// dictionary keys and storage: opaque here (std HashMap over ObjKey); lookups are uninterpreted
+#[verifier::external_body] #[verifier::accept_recursive_types] pub struct ObjKey { _p: u8 }
+pub uninterp spec fn to_key_spec(o: Obj) -> NRes<ObjKey>;
+#[verifier::external_body]
+pub fn to_key(obj: Obj) -> (r: NRes<ObjKey>) ensures r == to_key_spec(obj) { unimplemented!() }
+pub uninterp spec fn dict_get_spec(d: DictMap, k: ObjKey) -> Option<Obj>;
+impl DictMap {
+    #[verifier::external_body]
+    pub fn get(&self, k: &ObjKey) -> (r: Option<&Obj>) ensures (r is Some) == (dict_get_spec(*self, *k) is Some), r is Some ==> *r->Some_0 == dict_get_spec(*self, *k)->Some_0 { unimplemented!() }
+}
+#[verifier::external_body]
+pub fn symbol_access(obj: Obj, sym: &str) -> (r: NRes<Obj>) { unimplemented!() }
+impl PartialEqSpecImpl for Struct {
+    open spec fn obeys_eq_spec() -> bool { true }
+    open spec fn eq_spec(&self, o: &Struct) -> bool { self.id == o.id }
+}
+impl PartialEq for Struct { #[verifier::external_body] fn eq(&self, o: &Struct) -> (r: bool) ensures r == (self.id == o.id) { unimplemented!() } }
+impl From<f64> for Obj { #[verifier::external_body] fn from(x: f64) -> (r: Obj) ensures r == Obj::Num(NNum::Float(x)) { unimplemented!() } }
 impl Clone for Obj { #[verifier::external_body] fn clone(&self) -> (r: Obj) ensures r == *self { unimplemented!() } }
 pub uninterp spec fn truthy_spec(o: Obj) -> bool;
 impl Obj {
